@@ -49,11 +49,13 @@ def check_rolling_block(R, a, w, nodata, dtype, where="rolling_sum"):
     N, L = a.shape
     af = a.astype(np.float64)
     valid = af != nodata
+    nodata_in = nodata
+    nodata = float(np.float32(nodata))  # the float32 output echoes the placeholder as its nearest float32
     R.evaluation(N)
     nviol = 0
     if w > 1 and np.any(got[:, : w - 1] != nodata):
         i = int(np.argwhere(got[:, : w - 1] != nodata)[0][0])
-        R.violation("C17:incomplete-window", f"{where}: position before the first complete window is {got[i, :w-1].tolist()} instead of nodata (series {a[i].tolist()}, window {w})", {"series": a[i], "window": w, "nodata": nodata, "dtype": dtype})
+        R.violation("C17:incomplete-window", f"{where}: position before the first complete window is {got[i, :w-1].tolist()} instead of nodata (series {a[i].tolist()}, window {w})", {"series": a[i], "window": w, "nodata": nodata_in, "dtype": dtype})
         nviol += 1
     for i in range(w - 1, L):
         cells = af[:, i - w + 1:i + 1]
@@ -72,7 +74,7 @@ def check_rolling_block(R, a, w, nodata, dtype, where="rolling_sum"):
             j = int(np.flatnonzero(bad)[0])
             kind = "mixed window (nodata amalgamated with data)" if mixed[j] else ("complete window" if full[j] else "all-nodata window")
             key = "C17:rolling-mixed" if mixed[j] else "C17:rolling-sum"
-            R.violation(key, f"{where}: series {a[j].tolist()} window {w} position {i}: got {g[j]}, {kind}: valid sum {sv[j]}, nodata {nodata}", {"series": a[j], "window": w, "nodata": nodata, "dtype": dtype})
+            R.violation(key, f"{where}: series {a[j].tolist()} window {w} position {i}: got {g[j]}, {kind}: valid sum {sv[j]}, nodata {nodata}", {"series": a[j], "window": w, "nodata": nodata_in, "dtype": dtype})
             nviol += 1
     return nviol
 
@@ -191,11 +193,15 @@ def shard_random(spec, R):
         # accessors
         if it % 5 == 0 and n >= 2:
             ny, nx = 2, 2
+            adt = ["int16", "int64", "float32", "int32"][H.pick(it // 5, 2, 4)]
+            if adt in ("int32", "int64") and H.pick(it // 5, 5, 2):
+                # a placeholder with no exact float32 image (INT32_MAX): "cell == nodata" must be decided on the stored integers
+                nodata = float([2147483647, -2147483647, 99999999][H.pick(it // 5, 6, 3)])
+                R.count("accessor_placeholder_not_float32_exact")
             cube = rng.integers(0, 300, (ny, nx, n)).astype(np.float64)
             cube = np.where(cube == nodata, cube + 1, cube)
-            cube[rng.random(cube.shape) < 0.2] = nodata
+            cube[rng.random(cube.shape) < 0.35] = nodata
             cube[0, 0, :] = nodata
-            adt = ["int16", "int64", "float32"][H.pick(it // 5, 2, 3)]
             da = xr.DataArray(cube.astype(adt), dims=["y", "x", "time"], coords={"time": pd.date_range("2000-01-01", periods=n, freq="D")}, attrs={"nodata": nodata})
             order = [("y", "x", "time"), ("time", "y", "x")][H.pick(it // 5, 3, 2)]
             # how the placeholder reaches the accessor: attribute only / explicit argument equal to the attribute /
@@ -260,7 +266,7 @@ def finalize(agg, tier):
     c = agg["counters"]
     out = []
     for k in ("positions_full", "positions_all_nodata", "positions_mixed", "placeholder_pairs", "meangrp_series_labelling_pairs", "random_rolling",
-              "random_meangrp", "accessor_rolling", "accessor_meangrp"):
+              "random_meangrp", "accessor_rolling", "accessor_meangrp", "accessor_placeholder_not_float32_exact"):
         if c.get(k, 0) == 0:
             out.append(f"monitor/class {k} never observed")
     return out
